@@ -9,6 +9,7 @@ import (
 	"net/http/httptest"
 	"os"
 	"os/exec"
+	"reflect"
 	"strconv"
 	"strings"
 	"sync"
@@ -69,6 +70,11 @@ func (f *fakeTransport) RoundTrip(req *http.Request) (*http.Response, error) {
 
 	if ft.mode == 3 {
 		return nil, errors.New("injected RoundTrip error")
+	}
+
+	if ft.mode == 6 {
+		// the exporting process registered no types at all: its hash is zero
+		cache.GobTypesHashReset()
 	}
 
 	if ft.mode == 1 {
@@ -242,6 +248,16 @@ func propTransfer(c *Case) {
 			}
 		}
 
+		if c.Weighted("exporter-without-types", 2, 1) == 1 {
+			for _, name := range names {
+				if s := sides[name]; s != nil && s.src != nil && name != "" {
+					exporterWithoutTypes(c, tr.handler, name, s.family, s.src)
+
+					break
+				}
+			}
+		}
+
 		// truncation sweep over one small clean dump
 		for _, name := range names {
 			s := sides[name]
@@ -293,6 +309,40 @@ func propTransfer(c *Case) {
 			break
 		}
 	})
+}
+
+// c14FreshTypes counts the run-time array types registered to make the process' types hash non-zero.
+var c14FreshTypes = 1000
+
+// exporterWithoutTypes: an exporter whose types hash is zero (nothing registered) facing an importer
+// with registered types is a mismatch like any other.
+func exporterWithoutTypes(c *Case, handler http.Handler, name, family string, src dumpCache) {
+	for cache.GobTypesHash() == 0 {
+		c14FreshTypes++
+		cache.GobRegister(reflect.Zero(reflect.ArrayOf(c14FreshTypes, reflect.TypeOf(int8(0)))).Interface())
+	}
+
+	imp := &cache.HTTPTransfer{}
+	dst := newDumpCache(c, family)
+	imp.AddCache(name, dst.wdr())
+	imp.Transport = &fakeTransport{handler: handler, faults: map[string]rtFault{name: {mode: 6}}, sizes: map[string]int{}, seen: map[string]int{}}
+
+	var panicked interface{}
+
+	err := func() (err error) {
+		defer func() { panicked = recover() }()
+
+		return imp.Import(bg, "http://exporter.invalid/y")
+	}()
+
+	c.Assert(panicked == nil, "import-panic", "Import from an exporter without registered types panicked: %v", panicked)
+	c.Tracef("Import from an exporter with types hash 0 (importer hash non-zero) returned %v", err)
+
+	got := dst.rows()
+	c.Assert(len(got) == 0 || len(src.rows()) == 0, "imported-despite-refusal",
+		"cache %q holds %d entries although the exporter's types hash (0, nothing registered) differs from the importer's", name, len(got))
+	c.Class("exporter-without-registered-types")
+	dst.close()
 }
 
 func assertSubset(c *Case, what string, src, got []walkRow) {
